@@ -207,6 +207,20 @@ def job(args):
                         if [strip(i) for i in fm.content] != want:
                             rep.violate(f'C17|chain-filter-merge|{tag}', f'filter then merge gives {[strip(i) for i in fm.content]}, scan {want}',
                                         dict(case, query=repr(query)))
+                        # a selection keeps the global variables of its browser even when it retains no item: the merge of two
+                        # selections carries the merged globals whatever the number of items on either side
+                        if fm.globals != merged.globals:
+                            side = 'right-empty' if not right.content else ('left-empty' if not left.content else 'both-populated')
+                            rep.violate(f'C17|chain-filter-merge|globals|{side}|{tag}', f'filter then merge: globals {fm.globals}, merging the '
+                                        f'unfiltered browsers gives {merged.globals}', dict(case, query=repr(query)))
+                for empty_side in ('right', 'left'):
+                    hollow = Browser([], data_key=data_key, global_vars={'g': [3], 'extra': 1} if empty_side == 'right' else dict(brw.globals))
+                    full = brw if empty_side == 'right' else other
+                    got = full.merge(hollow) if empty_side == 'right' else hollow.merge(full)
+                    rep.evaluations += 1
+                    if got.globals != {'g': [3], 'name': 'globals', 'extra': 1} or [strip(i) for i in got.content] != (items if empty_side == 'right' else other_items):
+                        rep.violate(f'C17|merge-empty|{empty_side}|{tag}', f'merge with a browser without items ({empty_side}): globals {got.globals}, '
+                                    f'{len(got.content)} item(s)', case)
             except Exception as exc:  # pylint: disable=broad-except
                 rep.violate(f'C17|merge-raises|{type(exc).__name__}|{tag}', f'merge / chain raised {exc!r}', case)
             if deepsnap((other.content, other.index, other.globals)) != snap_other or deepsnap((brw.content, brw.index, brw.globals)) != snap_self:
